@@ -498,7 +498,7 @@ def store_thing(output, key, item):
             try:
                 output.write_array(key,np.array(item))
                 
-            except TypeError:
+            except (TypeError, ValueError):
                 for idx,val in enumerate(item):
                     new_key = '{}{}'.format(key,idx)
                     store_thing(output,new_key,val)
